@@ -231,6 +231,7 @@ bool Instance::setup_environment(unsigned int flags) {
 
     env = new InterpreterEnv(stack, script, flags, *checker, sigver, &error);
     env->successor_script = successor_script;
+    env->scriptsig_before_empty_scriptpubkey = spends_empty_scriptpubkey;
     env->pretend_valid_map = pretend_valid_map;
     env->pretend_valid_pubkeys = pretend_valid_pubkeys;
     env->done &= successor_script.size() == 0 && tce == nullptr; // a pending taproot commitment is still to be checked
@@ -656,6 +657,7 @@ bool Instance::configure_tx_txin() {
         sigver = SigVersion::BASE;
         script = scriptSig;
         successor_script = scriptPubKey;
+        spends_empty_scriptpubkey = scriptPubKey.size() == 0;
     }
 
 
